@@ -30,7 +30,7 @@ Record task_spec := mkTaskSpec {
   ts_id : positive; ts_job : positive; ts_role : positive; ts_prio : Z;
   ts_cpu : Z; ts_mem : Z; ts_gpu : Z; ts_status : status; ts_node : option positive; ts_preempt : bool }.
 Record node_spec := mkNodeSpec { ns_id : positive; ns_has : bool; ns_cpu : Z; ns_mem : Z; ns_pods : Z; ns_gpu : Z }.
-Record job_spec := mkJobSpec { js_id : positive; js_queue : positive; js_min : Z }.
+Record job_spec := mkJobSpec { js_id : positive; js_queue : positive; js_min : Z; js_role_min : list (positive * Z) }.
 
 Definition dTaskSpec : dec task_spec :=
   let* i := dPos in let* j := dPos in let* r := dPos in let* p := dZ in
@@ -40,7 +40,7 @@ Definition dNodeSpec : dec node_spec :=
   let* i := dPos in let* h := dBool in let* c := dZ in let* m := dZ in let* p := dZ in let* g := dZ in
   ret (mkNodeSpec i h c m p g).
 Definition dJobSpec : dec job_spec :=
-  let* i := dPos in let* q := dPos in let* m := dZ in ret (mkJobSpec i q m).
+  let* i := dPos in let* q := dPos in let* m := dZ in let* rm := dList (dPair dPos dZ) in ret (mkJobSpec i q m rm).
 
 Section WithEps.
 Variable eps : Z.
@@ -51,7 +51,8 @@ Definition task_of_spec (t : task_spec) : task :=
          (ts_status t) (ts_node t).
 
 Definition empty_job (j : job_spec) : job :=
-  mkJob (js_id j) (js_queue j) (js_min j) ∅ ∅ empty_res empty_res ∅ ∅.
+  mkJob (js_id j) (js_queue j) (js_min j) (list_to_map (js_role_min j))
+        (fold_left (fun acc kv => acc + snd kv) (js_role_min j) 0) ∅ ∅ empty_res empty_res ∅ ∅.
 
 Definition empty_node (n : node_spec) : node :=
   let a := if ns_has n then mk_alloc (ns_cpu n) (ns_mem n) (ns_pods n) (ns_gpu n) else empty_res in
